@@ -53,6 +53,17 @@ func loadCorpus() []CorpusFile {
 		}
 		return nil
 	})
+	// plus candidate inputs the model produced when a proof obligation broke (bin/check writes them)
+	filepath.Walk(verifDir(".work/candidates"), func(p string, info os.FileInfo, err error) error {
+		if err != nil || info.IsDir() || !strings.HasSuffix(p, ".jst") {
+			return nil
+		}
+		b, e := os.ReadFile(p)
+		if e == nil {
+			out = append(out, CorpusFile{"verif-candidate/" + filepath.Base(p), b})
+		}
+		return nil
+	})
 	sort.Slice(out, func(i, j int) bool { return out[i].Path < out[j].Path })
 	corpusCache = out
 	return out
